@@ -1468,3 +1468,56 @@ func TestRedigoPool(t *testing.T) {
 		}
 	}
 }
+
+// Paged SCAN: pages hold at most n examined keys, MATCH is applied afterwards (empty pages before the end are
+// possible), every key present during the whole iteration is returned once, additions and removals do not disturb it.
+func TestScanPaged(t *testing.T) {
+	s := startServer(t)
+	s.SetScanPage(3)
+	c := dial(t, s)
+	for i := 0; i < 12; i++ {
+		expect(t, c, int64(1), "RPUSH", fmt.Sprintf("queue:c%02d", i), "v")
+		expect(t, c, int64(1), "HSET", fmt.Sprintf("session:c%02d", i), "f", "v")
+	}
+	var got []string
+	cursor, pages, empty := "0", 0, 0
+	for {
+		rep, err := redis.Values(c.Do("SCAN", cursor, "MATCH", "session:*"))
+		if err != nil || len(rep) != 2 {
+			t.Fatalf("SCAN: %v %v", rep, err)
+		}
+		cursor = string(rep[0].([]byte))
+		ks, _ := redis.Strings(rep[1], nil)
+		if len(ks) == 0 && cursor != "0" {
+			empty++
+		}
+		if pages == 1 {
+			// modifications during the iteration
+			expect(t, c, int64(1), "DEL", "queue:c00")
+			expect(t, c, int64(1), "HSET", "a-new-key", "f", "v")
+		}
+		got = append(got, ks...)
+		pages++
+		if cursor == "0" {
+			break
+		}
+		if pages > 100 {
+			t.Fatal("SCAN does not terminate")
+		}
+	}
+	if len(got) != 12 || empty == 0 || pages < 8 {
+		t.Fatalf("paged SCAN: %d keys %q in %d pages (%d empty)", len(got), got, pages, empty)
+	}
+	seen := map[string]bool{}
+	for _, k := range got {
+		if seen[k] || !strings.HasPrefix(k, "session:") {
+			t.Fatalf("paged SCAN returned %q twice or unexpectedly", k)
+		}
+		seen[k] = true
+	}
+	// an unknown cursor ends the iteration
+	rep, err := redis.Values(c.Do("SCAN", 12345))
+	if err != nil || string(rep[0].([]byte)) != "0" {
+		t.Fatalf("unknown cursor: %v %v", rep, err)
+	}
+}
